@@ -259,6 +259,14 @@ theorem simparams_during (lower : String → String) (dflt : SimState) (ramanOn 
     (estimateRamanGainParams lower dflt ramanOn s).1 = { nli := dflt.nli, raman := ramanOn } := by
   simp [estimateRamanGainParams, setParams, mkRaman]
 
+/-- a document whose connections mention an element that is not in it is rejected on reload (malformed stream) -/
+theorem reload_rejects_dangling (uids : List String) (cxs : List (String × String)) (c : String × String)
+    (hc : c ∈ cxs) (hmiss : c.1 ∉ uids ∨ c.2 ∉ uids) : reloadAccepts uids cxs = false := by
+  unfold reloadAccepts
+  rw [List.all_eq_false]
+  refine ⟨c, hc, ?_⟩
+  rcases hmiss with h | h <;> simp [h]
+
 /-! ### non-vacuity -/
 
 /-- `FitsAll` and the offset hypothesis of `redesign_fixpoint` hold for a two-amplifier OMS (auto booster, preamp) -/
